@@ -2,6 +2,7 @@ package vfilter
 
 import (
 	"bytes"
+	"context"
 	"fmt"
 	"strings"
 	"testing"
@@ -238,3 +239,7 @@ func maxCfg(ch []cfgChange, a, b time.Duration) (burst, rate int) {
 }
 
 var _ = fmt.Sprintf
+
+func contextWithCancel() (context.Context, context.CancelFunc) {
+	return context.WithCancel(context.Background())
+}
